@@ -82,6 +82,14 @@ def directed():
                    + [["send", "zone_ctrl", "long", "inline"],
                       ["net_default", "accept", 0.0], ["adv", 2.5], ["q"],
                       ["send", "ac_ctrl", pol, "inline"], ["q"]])
+    # a connection attempt that is still in flight (no answer yet): held messages expire
+    # meanwhile, and room is made for new ones as in any other outage
+    for lat in (3.0, 8.0):
+        for pol, wait in (("short", 0.6), ("conn", 1.1)):
+            out.append([["net", "accept", lat]]
+                       + [["send", S.KINDS[i % 3], pol, "inline"] for i in range(10)]
+                       + [["adv", wait], ["send", "zone_ctrl", "idem", "inline"],
+                          ["send", "ac_ctrl", "long", "inline"], ["adv", lat + 1.0], ["q"]])
     # messages that may wait an hour, and an outage of many minutes
     for wait in (400.0, 3599.0, 3601.0):
         out.append([["net_default", "refuse", 0.0]]
